@@ -86,6 +86,16 @@ class Pool:
         if r.random() < 0.15:
             f = r.choice(COLLISION[0] + tuple(TINY))
             return {"kind": "position", "line": "position fen " + f, "base": "fen", "fen": list(f), "pos": uci_driver.fen_to_pos(f), "moves": [], "valid": True}
+        if r.random() < 0.12:
+            # late in a long game: the halfmove clock at or past 100 does not end the game, a go is still owed its bestmove
+            g = r.choice(self.games)
+            half = r.choice([98, 99, 100, 101, 150, 300])
+            p2 = dict(g["pos"], half=half, full=max(g["pos"]["full"], half // 2 + 1))
+            f = pos_to_fen(p2)
+            k = r.choice([0, 0, 1, 2]) if len(g["moves"]) >= 2 else 0
+            mv = g["moves"][:k]
+            line = "position fen " + f + (" moves " + " ".join(lan(m["mv"]) for m in mv) if mv else "")
+            return {"kind": "position", "line": line, "base": "fen", "fen": list(f), "pos": p2, "moves": move_triples(mv, k), "valid": True}
         g = r.choice(self.games)
         k = r.randrange(0, min(len(g["moves"]), 12) + 1)
         # never end on a position without legal moves for an "open" slot: TLC decides anyway
